@@ -37,25 +37,25 @@ func (a *asm) pushBytes(bs []byte) *asm {
 }
 
 const (
-	opSTOP, opADD, opMUL, opSUB, opDIV   = 0x00, 0x01, 0x02, 0x03, 0x04
-	opLT, opGT, opEQ, opISZERO           = 0x10, 0x11, 0x14, 0x15
-	opAND                                = 0x16
-	opSHA3                               = 0x20
-	opADDRESS, opBALANCE, opORIGIN       = 0x30, 0x31, 0x32
-	opCALLER, opCALLVALUE, opCALLDATALOAD = 0x33, 0x34, 0x35
-	opCALLDATASIZE, opCODECOPY           = 0x36, 0x39
-	opGASPRICE, opEXTCODESIZE            = 0x3a, 0x3b
-	opRETURNDATASIZE, opRETURNDATACOPY   = 0x3d, 0x3e
-	opBLOCKHASH, opCOINBASE, opTIMESTAMP = 0x40, 0x41, 0x42
-	opNUMBER, opCHAINID, opSELFBALANCE   = 0x43, 0x46, 0x47
-	opPOP, opMLOAD, opMSTORE             = 0x50, 0x51, 0x52
-	opSLOAD, opSSTORE, opJUMP, opJUMPI   = 0x54, 0x55, 0x56, 0x57
-	opGAS, opJUMPDEST                    = 0x5a, 0x5b
-	opDUP1, opSWAP1                      = 0x80, 0x90
-	opLOG0                               = 0xa0
-	opCREATE, opCALL, opRETURN           = 0xf0, 0xf1, 0xf3
+	opSTOP, opADD, opMUL, opSUB, opDIV      = 0x00, 0x01, 0x02, 0x03, 0x04
+	opLT, opGT, opEQ, opISZERO              = 0x10, 0x11, 0x14, 0x15
+	opAND                                   = 0x16
+	opSHA3                                  = 0x20
+	opADDRESS, opBALANCE, opORIGIN          = 0x30, 0x31, 0x32
+	opCALLER, opCALLVALUE, opCALLDATALOAD   = 0x33, 0x34, 0x35
+	opCALLDATASIZE, opCODECOPY              = 0x36, 0x39
+	opGASPRICE, opEXTCODESIZE               = 0x3a, 0x3b
+	opRETURNDATASIZE, opRETURNDATACOPY      = 0x3d, 0x3e
+	opBLOCKHASH, opCOINBASE, opTIMESTAMP    = 0x40, 0x41, 0x42
+	opNUMBER, opCHAINID, opSELFBALANCE      = 0x43, 0x46, 0x47
+	opPOP, opMLOAD, opMSTORE                = 0x50, 0x51, 0x52
+	opSLOAD, opSSTORE, opJUMP, opJUMPI      = 0x54, 0x55, 0x56, 0x57
+	opGAS, opJUMPDEST                       = 0x5a, 0x5b
+	opDUP1, opSWAP1                         = 0x80, 0x90
+	opLOG0                                  = 0xa0
+	opCREATE, opCALL, opRETURN              = 0xf0, 0xf1, 0xf3
 	opDELEGATECALL, opCREATE2, opSTATICCALL = 0xf4, 0xf5, 0xfa
-	opREVERT, opINVALID, opSELFDESTRUCT  = 0xfd, 0xfe, 0xff
+	opREVERT, opINVALID, opSELFDESTRUCT     = 0xfd, 0xfe, 0xff
 )
 
 // wrapInit returns init code that (optionally after a prologue) returns `runtime` as the code.
